@@ -469,3 +469,49 @@ def check_mechanistic(model: int, h1: int, h2: int, h3: int,
     finally:
         mmod.myokit = saved
     return bool(ok)
+
+
+@concrete
+def check_nested(k1: int, k2: int, k3: int, n_ids: int, wrap: int) -> bool:
+    """a composition nested in a composition (optionally behind a
+    ReducedPopulationModel with nothing fixed) describes the same parameter
+    vector as the flat composition of the same sub-models: counts, names,
+    IDs, and the value of a hierarchical likelihood at a vector of the
+    reported length"""
+    def subs():
+        ms = [_make(k1, 1, n_ids), _make(k2, 1, n_ids), _make(k3, 1, n_ids)]
+        for m_ in ms:
+            m_.set_n_ids(n_ids)
+        return ms
+    a = subs()
+    inner = chi.ComposedPopulationModel(a[1:])
+    if wrap:
+        inner = chi.ReducedPopulationModel(inner)
+    nested = chi.ComposedPopulationModel([a[0], inner])
+    flat = chi.ComposedPopulationModel(subs())
+    mech = Toy(2, 1)
+
+    def hll(pop):
+        lls = []
+        for i in range(n_ids):
+            lls.append(chi.LogLikelihood(
+                mech, chi.GaussianErrorModel(), [1.0 + i, 2.0],
+                [1.0, 2.0 + i]))
+        pop.set_dim_names(lls[0].get_parameter_names())
+        return chi.HierarchicalLogLikelihood(lls, pop)
+    hn, hf = hll(nested), hll(flat)
+    ok = nested.n_parameters() == flat.n_parameters()
+    ok = ok and nested.get_parameter_names() == flat.get_parameter_names()
+    ok = ok and nested.n_hierarchical_parameters(n_ids) == \
+        flat.n_hierarchical_parameters(n_ids)
+    n = hn.n_parameters()
+    ok = ok and n == hf.n_parameters()
+    names = hn.get_parameter_names()
+    ok = ok and len(names) == n and len(hn.get_id()) == n
+    ok = ok and names == hf.get_parameter_names()
+    ok = ok and hn.get_id() == hf.get_id()
+    ok = ok and len(hn.get_parameter_names(include_ids=True)) == n
+    x = 0.6 + 0.05 * np.arange(n)
+    vn, vf = hn(x), hf(x)
+    ok = ok and (vn == vf or abs(vn - vf) <= 1e-9 * (1 + abs(vf)))
+    return bool(ok)
